@@ -375,3 +375,49 @@ def c11_lsf_poly(ctx, case):
     back = np.asarray(lp.poly2lsf(a.copy()), dtype=float)
     ctx.check(back.shape == (p,), "poly2lsf returned %s values for order %d" % (back.shape, p))
     ctx.close(back, lsf, "poly2lsf(lsf2poly(lsf)) vs lsf", rtol=0, atol=1e-11 / mingap ** 2)
+
+
+# ----------------------------------------------------------------------------
+# integer-typed autocorrelations (admissible values in another number type)
+# ----------------------------------------------------------------------------
+@st.composite
+def int_ac_case(draw):
+    n = draw(st.integers(3, 14))
+    x = draw(st.lists(st.integers(-6, 6), min_size=n, max_size=n))
+    if not any(x):
+        x[0] = 1
+    p = draw(st.integers(1, min(n - 1, 8)))
+    return {"x": x, "p": p, "form": draw(st.sampled_from(["list", "int-array", "list", "int-array", "float-list"]))}
+
+
+@sub("C11.int_ac", strategy=int_ac_case(), quick=400, thorough=20000,
+     doc="exact integer autocorrelations r[k] = sum x[n+k] x[n] of integer data, passed as Python ints / integer ndarray: "
+         "ac2poly / ac2rc equal the float-typed result and poly2ac / rc2ac restore r")
+def c11_int_ac(ctx, case):
+    x = np.array(case["x"], dtype=np.int64)
+    p = case["p"]
+    r_int = [int(np.sum(x[k:] * x[:len(x) - k])) for k in range(p + 1)]     # positive definite: lag products of a finite sequence
+    rf = np.array(r_int, dtype=float)
+    c = float(np.linalg.cond(_toep(rf)))
+    ctx.cls("form=" + case["form"], "order=1" if p == 1 else ("order=2-5" if p <= 5 else "order=6-8"),
+            "cond<1e2" if c < 1e2 else ("cond<1e4" if c < 1e4 else "cond>=1e4"))
+    if not c <= 1e6:
+        ctx.exclude("cond(T) > 1e6")
+        return
+    ctx.nontrivial(p >= 2)
+    arg = r_int if case["form"] == "list" else (np.array(r_int, dtype=np.int64) if case["form"] == "int-array" else [float(v) for v in r_int])
+    a_ref, P_ref, k_ref = ref.levinson_ref(rf)
+    A_ref = np.concatenate(([1.0], a_ref.real))
+    tol = ETOL * c
+    a1, e1 = lp.ac2poly(arg)
+    ctx.close(np.asarray(a1, dtype=complex), A_ref.astype(complex), "ac2poly of an integer-typed autocorrelation (%s) vs Levinson on the same values"
+              % case["form"], rtol=0, atol=tol * max(1.0, float(np.max(np.abs(A_ref)))), sig={"clause": "int-ac2poly"})
+    ctx.check(abs(complex(e1) - P_ref) <= tol * abs(P_ref), "ac2poly final error %r, expected %r" % (e1, P_ref), sig={"clause": "int-ac2poly"})
+    k1, r01 = lp.ac2rc(arg)
+    ctx.close(np.asarray(k1, dtype=complex), k_ref.astype(complex), "ac2rc of an integer-typed autocorrelation (%s)" % case["form"],
+              rtol=0, atol=tol, sig={"clause": "int-ac2rc"})
+    ctx.check(float(np.real(r01)) == float(r_int[0]), "ac2rc zero lag %r != %r" % (r01, r_int[0]), sig={"clause": "int-ac2rc"})
+    ctx.close(np.asarray(lp.poly2ac(a1, e1), dtype=complex), rf.astype(complex), "poly2ac(ac2poly(r)) vs r (integer-typed r)",
+              rtol=0, atol=tol * float(rf[0]), sig={"clause": "int-roundtrip"})
+    ctx.close(np.asarray(lp.rc2ac(k1, r01), dtype=complex), rf.astype(complex), "rc2ac(ac2rc(r)) vs r (integer-typed r)",
+              rtol=0, atol=tol * float(rf[0]), sig={"clause": "int-roundtrip"})
